@@ -26,10 +26,12 @@ Terms are plain tuples:
 from __future__ import annotations
 
 import ast
+import json
+import os
 from dataclasses import dataclass, field
 from typing import Dict, List, Optional, Tuple
 
-from .index import AnalysisError, ClassInfo, Index, Module, Sym, dotted_name
+from .index import AnalysisError, ClassInfo, Index, Module, Sym, dotted_name, pick_def
 
 TRUE = ("const", True)
 FALSE = ("const", False)
@@ -44,6 +46,12 @@ BUILTINS = {
     "object", "slice", "divmod", "pow", "setattr", "vars", "property", "classmethod", "staticmethod",
     "DeprecationWarning", "StopIteration", "bytes", "open", "issubclass", "ZeroDivisionError",
 }
+
+# Function and method names of the reference tree, per module (tools/gen_pinned_names.py).  Calls to in-package
+# functions that are NOT listed are calls to helpers a later change introduced: their summaries are inlined at the
+# call site, so that extracting a helper (or moving code between a function and a new helper) is invisible to rules.
+with open(os.path.join(os.path.dirname(os.path.abspath(__file__)), "pinned_names.json")) as _f:
+    PINNED = {k: frozenset(v) for k, v in json.load(_f).items()}
 
 CMP_FLIP = {"gt": "lt", "ge": "le"}
 CMP_NEG = {"lt": "ge", "le": "gt", "eq": "ne", "ne": "eq", "in": "notin", "notin": "in", "is": "isnot", "isnot": "is",
@@ -71,6 +79,20 @@ def NOT(t):
     if t[0] == "cmp":
         return mk_cmp(CMP_NEG[t[1]], t[2], t[3])
     return ("not", t)
+
+
+def ITE(c, a, b):
+    """Conditional value in canonical form: the condition is never a negation (`not x`, `is not`, `!=`, `not in`,
+    `<=`): those swap the branches, so that `a if c else b` and `b if not c else a` are the same term."""
+    if c == TRUE:
+        return a
+    if c == FALSE:
+        return b
+    if a == b:
+        return a
+    if c[0] == "not" or (c[0] == "cmp" and c[1] in ("isnot", "ne", "notin", "le")):
+        return ("ite", NOT(c), b, a)
+    return ("ite", c, a, b)
 
 
 def AND(*ts):
@@ -156,6 +178,22 @@ class Event:
         return getattr(self.node, "lineno", 0)
 
 
+def _split_ite(e: "Event") -> List["Event"]:
+    t = e.term
+    if t[0] != "ite" or (t[1][0] == "completed"):
+        return [e]
+    out = []
+    for lv, tm in ((AND(e.live, t[1]), t[2]), (AND(e.live, NOT(t[1])), t[3])):
+        if lv == FALSE:
+            continue
+        ne = Event(e.kind, lv, tm, e.node, e.loops, e.idx, e.handlers, e.in_handler)
+        for a in ("inlined_from",):
+            if hasattr(e, a):
+                setattr(ne, a, getattr(e, a))
+        out += _split_ite(ne)
+    return out
+
+
 @dataclass
 class LoopInfo:
     id: str
@@ -200,6 +238,15 @@ class Summary:
 
     @property
     def returns(self):
+        """Return events, one per returned alternative: `return a if c else b` (and the single-exit style
+        `if c: r = a / else: r = b / return r`) counts as two returns under the conditions c and not c."""
+        out = []
+        for e in self.of("return"):
+            out += _split_ite(e)
+        return out
+
+    @property
+    def raw_returns(self):
         return self.of("return")
 
     @property
@@ -237,6 +284,10 @@ class Evaluator:
         self.nested: Dict[str, ast.AST] = {}
         self.is_generator = False
         self._n = 0
+        self.inline_stack: Tuple[str, ...] = ()
+        self._post: List[tuple] = []  # conditions that hold once the current statement completed normally (inlined raises)
+        self.inlined: List[str] = []
+        self.alloc_loops: Dict[str, Tuple[str, ...]] = {}
 
     # ------------------------------------------------------------------ plumbing
     def fresh(self, prefix):
@@ -283,8 +334,64 @@ class Evaluator:
             fall = FALSE
         else:
             fall = self.block(fn.body, TRUE)
+            self._normalise_accumulators()
         return Summary(self.qual, self.module, fn, params, defaults, annotations, self.events, self.loops,
                        self.tries, self.env, fall, self.lambdas, self.nested, self.is_generator, kwarg, vararg)
+
+    def _normalise_accumulators(self):
+        """`out = []` filled by exactly one `out.append(v)` in a for loop and not otherwise touched until the loop
+        has finished is the list comprehension `[v for ... if ...]`; likewise a dict filled by one `d[k] = v`.
+        Later uses of the accumulator see the comprehension term (the append / store events themselves stay)."""
+        for key, outer in self.alloc_loops.items():
+            als = [("alloc", k, key) for k in ("list", "dict", "set")]
+            uses = [e for e in self.events if any(x in als for x in walk(e.term)) or any(x in als for x in walk(e.live))]
+            if not uses:
+                continue
+            m = uses[0]
+            al = next(x for x in als if any(y == x for y in walk(m.term)))
+            elt = None
+            if m.kind == "call" and m.term[1] in (("attr", al, "append"), ("attr", al, "add")) and len(m.term[2]) == 1 \
+                    and not m.term[3] and al[1] in ("list", "set"):
+                elt = m.term[2][0]
+                kind = al[1]
+            elif m.kind == "store" and m.term[1][0] == "sub" and m.term[1][1] == al and al[1] == "dict":
+                elt = ("kv", m.term[1][2], m.term[2])
+                kind = "dict"
+            if elt is None or m.loops[:len(outer)] != outer or len(m.loops) <= len(outer):
+                continue
+            gens_ids = m.loops[len(outer):]
+            if any(self.loops[l].kind != "for" for l in gens_ids):
+                continue
+            if any(x == al or x[0] in ("phi", "yieldval") for x in walk(elt)):
+                continue
+            if any(e.kind == "break" and gens_ids[0] in e.loops for e in self.events):
+                continue
+            rest = uses[1:]
+            if any(gens_ids[0] in e.loops or e.idx < m.idx for e in rest):
+                continue
+            # split the path condition of the mutation into per-loop filters
+            conds: Dict[str, list] = {l: [] for l in gens_ids}
+            cur = None
+            bad = False
+            for cj in conjuncts(m.live):
+                if cj[0] == "inloop" and cj[1] in gens_ids:
+                    cur = cj[1]
+                elif cur is not None:
+                    if any(x == al or x[0] == "phi" for x in walk(cj)):
+                        bad = True
+                    conds[cur].append(cj)
+            if bad or cur != gens_ids[-1]:
+                continue
+            if any(any(x[0] == "phi" for x in walk(self.loops[l].iter)) for l in gens_ids):
+                continue
+            comp = ("comp", kind, elt, tuple((l, self.loops[l].iter, tuple(conds[l])) for l in gens_ids))
+            mp = {al: comp}
+            for e in rest:
+                e.term = subst(e.term, mp)
+                e.live = subst(e.live, mp)
+            for k, v in list(self.env.items()):
+                self.env[k] = subst(v, mp)
+            self.normalised = getattr(self, "normalised", []) + [key]
 
     def ev_quiet(self, node):
         saved = self.events
@@ -300,6 +407,9 @@ class Evaluator:
             if live == FALSE:
                 break
             live = self.stmt(st, live)
+            if self._post and live != FALSE:
+                live = AND(live, *self._post)
+            self._post = []
         return live
 
     def stmt(self, st, live):
@@ -399,6 +509,7 @@ class Evaluator:
             kind = node.func.id
         if kind is None:
             return val
+        self.alloc_loops[f"{name}@{st.lineno}"] = tuple(self.loop_stack)
         return ("alloc", kind, f"{name}@{st.lineno}")
 
     def assign(self, target, val, live, st):
@@ -448,7 +559,7 @@ class Evaluator:
         for k in set(env_then) | set(env_else):
             a = env_then.get(k, ("unbound", k))
             b = env_else.get(k, ("unbound", k))
-            merged[k] = a if a == b else ("ite", c, a, b)
+            merged[k] = ITE(c, a, b)
         self.env = merged
         return join_live(l_then, l_else)
 
@@ -696,7 +807,7 @@ class Evaluator:
         c = self.ev(n.test, live)
         a = self.ev(n.body, AND(live, c))
         b = self.ev(n.orelse, AND(live, NOT(c)))
-        return ("ite", c, a, b)
+        return ITE(c, a, b)
 
     def e_NamedExpr(self, n, live):
         v = self.ev(n.value, live)
@@ -737,6 +848,8 @@ class Evaluator:
     def e_YieldFrom(self, n, live):
         self.is_generator = True
         t = self.ev(n.value, live)
+        if t[0] == "inlined_gen":
+            return NONE  # the helper generator's yields were re-emitted in place
         ev = self.emit("yield", live, ("yieldfrom", t), n)
         return ("yieldval", ev.idx)
 
@@ -753,9 +866,157 @@ class Evaluator:
         named = sorted([kv for kv in kws if kv[0] != "**"], key=lambda kv: kv[0])
         spreads = [kv for kv in kws if kv[0] == "**"]
         t = ("call", f, tuple(args), tuple(named + spreads))
+        inl = self._try_inline(f, t, live, n)
+        if inl is not None:
+            return inl
         ev = self.emit("call", live, t, n)
         ev.kw_order = [kv[0] for kv in kws]  # type: ignore[attr-defined]
         return t
+
+    # ------------------------------------------------------------------ helper inlining
+    def _inline_target(self, f):
+        """(module, def node, qual, class, bound-self term) of a helper the call resolves to, else None.
+
+        A helper is an in-package function or a method of the caller's own class that does not exist on the
+        reference tree (sa/pinned_names.json): the rules cannot know it by name, so they must see through it."""
+        cls = None
+        node = None
+        selfterm = None
+        if f[0] == "global" and f[2] == "func" and ":" in f[1]:
+            modname, fname = f[1].split(":")
+            module = self.index.modules.get(modname)
+            if module is None:
+                return None
+            if "." in fname:
+                cname, mname = fname.split(".", 1)
+                ci = module.classes.get(cname)
+                if ci is None or mname not in ci.methods:
+                    return None
+                node = pick_def(ci.methods[mname])
+                cls = ci
+                if not any(ast.unparse(d) == "staticmethod" for d in node.decorator_list):
+                    return None
+            else:
+                defs = [d for d in module.defs.get(fname, []) if isinstance(d, ast.FunctionDef)]
+                if not defs:
+                    return None
+                node = pick_def(defs)
+        elif f[0] == "attr" and f[1] in (("param", "self"), ("param", "cls")) and self.cls is not None:
+            found = self.cls.find_method(f[2])
+            if not found:
+                return None
+            cls, node = found
+            module = cls.module
+            fname = f"{cls.name}.{f[2]}"
+            modname = module.name
+            selfterm = f[1]
+        else:
+            return None
+        if fname in PINNED.get(modname, ()):
+            return None
+        decos = [ast.unparse(d) for d in node.decorator_list]
+        if any(d not in ("staticmethod", "classmethod") for d in decos):
+            return None
+        if "staticmethod" in decos:
+            selfterm = None
+        elif cls is not None and selfterm is None:
+            return None
+        return module, node, f"{modname}:{fname}", cls, selfterm
+
+    def _try_inline(self, f, call_term, live, n):
+        tgt = self._inline_target(f)
+        if tgt is None:
+            return None
+        module, node, qual, cls, selfterm = tgt
+        if qual in self.inline_stack or len(self.inline_stack) >= 4:
+            return None
+        sub = Evaluator(self.index, module, node, qual, cls)
+        sub.inline_stack = self.inline_stack + (qual,)
+        try:
+            cs = sub.run()
+        except (AnalysisError, RecursionError):
+            return None
+        params = list(cs.params)
+        bound: Dict[tuple, tuple] = {}
+        if selfterm is not None:
+            if not params:
+                return None
+            bound[("param", params[0])] = selfterm
+            params = params[1:]
+        if any(a[0] == "star" for a in call_term[2]) or any(k == "**" for k, _ in call_term[3]) or cs.kwarg or cs.vararg:
+            return None
+        if len(call_term[2]) > len(params):
+            return None
+        for p, a in zip(params, call_term[2]):
+            bound[("param", p)] = a
+        for k, v in call_term[3]:
+            if k not in params or ("param", k) in bound:
+                return None
+            bound[("param", k)] = v
+        for p in params:
+            if ("param", p) not in bound:
+                if p not in cs.defaults:
+                    return None
+                bound[("param", p)] = cs.defaults[p]
+        rets = cs.returns
+        if any(r.loops for r in rets):
+            return None  # a return from inside a loop has no value term
+        self._n += 1
+        tag = f"i{self._n}"
+        idmap: Dict[str, str] = {}
+        for lid in cs.loops:
+            idmap[lid] = tag + lid
+        for tid, ti in cs.tries.items():
+            idmap[tid] = tag + tid
+            for hid, _ in ti.handlers:
+                idmap[hid] = tag + hid
+        for lid in cs.lambdas:
+            idmap[lid] = tag + lid
+
+        def inst(t):
+            return subst(_rename_ids(t, idmap, tag), bound)
+
+        top = self.loop_stack[-1] if self.loop_stack else None
+        for lid, li in cs.loops.items():
+            nl = LoopInfo(idmap[lid], li.kind, inst(li.iter), li.node, idmap[li.parent] if li.parent in idmap else top,
+                          li.target_text, tuple(inst(c) for c in li.conds), li.assigned, li.has_else)
+            be = getattr(li, "body_env", None)
+            if be is not None:
+                nl.body_env = {k: inst(v) for k, v in be.items()}  # type: ignore[attr-defined]
+            self.loops[nl.id] = nl
+        for tid, ti in cs.tries.items():
+            self.tries[idmap[tid]] = TryInfo(idmap[tid], ti.node, [(idmap[h], names) for h, names in ti.handlers])
+        for lid, ls in cs.lambdas.items():
+            self.lambdas[idmap[lid]] = _inst_summary(ls, inst)
+        for k, v in cs.nested.items():
+            self.nested.setdefault(k, v)
+        for e in cs.events:
+            if e.kind == "return":
+                continue
+            ne = Event(e.kind, AND(live, inst(e.live)), inst(e.term), e.node,
+                       tuple(self.loop_stack) + tuple(idmap.get(x, x) for x in e.loops), len(self.events),
+                       tuple(self.try_stack) + tuple(idmap.get(x, x) for x in e.handlers),
+                       tuple(self.handler_stack) + tuple(idmap.get(x, x) for x in e.in_handler))
+            ne.inlined_from = qual  # type: ignore[attr-defined]
+            if hasattr(e, "kw_order"):
+                ne.kw_order = e.kw_order  # type: ignore[attr-defined]
+            self.events.append(ne)
+            if e.kind == "raise" and not e.handlers and not e.loops:
+                self._post.append(NOT(inst(e.live)))
+            if e.kind == "yield":
+                self.is_generator = True
+        self.inlined.append(qual)
+        if cs.is_generator:
+            return ("inlined_gen", qual)
+        vals = [(inst(r.live), inst(r.term)) for r in rets]
+        if cs.fall_live != FALSE:
+            vals.append((inst(cs.fall_live), NONE))
+        if not vals:
+            return NONE
+        v = vals[-1][1]
+        for lv, tm in reversed(vals[:-1]):
+            v = ITE(lv, tm, v)
+        return v
 
     def _comp(self, n, live, kind, elt_fn):
         saved_env = dict(self.env)
@@ -803,6 +1064,47 @@ class Evaluator:
 
     def e_DictComp(self, n, live):
         return self._comp(n, live, "dict", lambda l: ("kv", self.ev(n.key, l), self.ev(n.value, l)))
+
+
+def _rename_ids(t, idmap: Dict[str, str], tag: str):
+    """Rename loop / try / handler / lambda ids and allocation identities of an inlined summary term."""
+    if not isinstance(t, tuple) or not t:
+        return t
+    if not isinstance(t[0], str):
+        return tuple(_rename_ids(c, idmap, tag) for c in t)
+    k = t[0]
+    if k in ("elem", "inloop", "lambda", "completed") and len(t) == 2 and t[1] in idmap:
+        return (k, idmap[t[1]])
+    if k in ("phi", "loopout") and len(t) == 3 and t[2] in idmap:
+        return (k, t[1], idmap[t[2]])
+    if k == "caught" and t[1] in idmap:
+        return (k, idmap[t[1]]) + tuple(t[2:])
+    if k == "exc" and t[1] in idmap:
+        return (k, idmap[t[1]])
+    if k == "tryphi" and t[1] in idmap:
+        return (k, idmap[t[1]], _rename_ids(t[2], idmap, tag))
+    if k == "alloc" and len(t) == 3:
+        return (k, t[1], f"{tag}:{t[2]}")
+    if k == "comp":
+        gens = tuple((idmap.get(lid, lid), _rename_ids(it, idmap, tag), _rename_ids(cs, idmap, tag)) for lid, it, cs in t[3])
+        return ("comp", t[1], _rename_ids(t[2], idmap, tag), gens)
+    return tuple(_rename_ids(c, idmap, tag) if isinstance(c, tuple) else c for c in t)
+
+
+def _inst_summary(ls: "Summary", inst) -> "Summary":
+    """A lambda summary of an inlined helper, with the helper's parameters replaced by the call's arguments."""
+    prot = {("param", p): ("param-of-lambda", p) for p in ls.params}
+    unprot = {v: k for k, v in prot.items()}
+    outer = inst
+
+    def inst(t):  # the lambda's own parameters shadow the helper's
+        return subst(outer(subst(t, prot)), unprot)
+
+    evs = [Event(e.kind, inst(e.live), inst(e.term), e.node, e.loops, e.idx, e.handlers, e.in_handler) for e in ls.events]
+    return Summary(ls.qual, ls.module, ls.node, ls.params, {k: inst(v) for k, v in ls.defaults.items()}, ls.annotations,
+                   evs, ls.loops, ls.tries, {k: inst(v) for k, v in ls.env.items()}, inst(ls.fall_live),
+                   {k: _inst_summary(v, inst) for k, v in ls.lambdas.items()}, ls.nested, ls.is_generator, ls.kwarg,
+                   ls.vararg)
 
 
 def _target_names(t) -> List[str]:
